@@ -2,6 +2,7 @@ package main
 
 import (
 	"fmt"
+	"go/token"
 	"go/types"
 	"strings"
 
@@ -64,33 +65,48 @@ func runC14(r *Run) {
 	if fn := r.Fn("trillian/ctfe.rpcGetLeavesByRange"); fn != nil {
 		fix := CallsTo(fn, "iface(trillian/ctfe.leafChainBuilder).FixLogLeaf")
 		if len(fix) == 1 {
-			// from the loop body's first block, every path to the next iteration or to a return passes the call
-			body := fix[0].Block()
-			for len(body.Preds) == 1 && body.Preds[0].Comment != "rangeindex.loop" && body.Preds[0] != body {
-				body = body.Preds[0]
-			}
-			reach := r.D.Walk(fn, Sigma{}, body, map[*ssa.BasicBlock]bool{fix[0].Block(): true})
-			r.Valuations++
-			ok := true
-			if body != fix[0].Block() {
-				for b := range reach.Blocks {
-					if b != body && (b.Comment == "rangeindex.loop" || len(b.Succs) == 0) {
-						ok = false
+			// the call sits in a loop (whatever its syntactic form: range, index loop, …); once an iteration
+			// has been entered (the header's edge into the loop was taken), every path to the next
+			// iteration (back to the header) or to a return passes the call
+			fb := fix[0].Block()
+			h := loopHeaderOf(fb)
+			ok := h != nil
+			if ok && h != fb {
+				loop := loopBlocksOf(h)
+				stop := map[*ssa.BasicBlock]bool{fb: true}
+				entered := 0
+				for _, s := range h.Succs {
+					if !loop[s] || s == h {
+						continue
 					}
+					entered++
+					if s == fb {
+						continue
+					}
+					reach := r.D.Walk(fn, Sigma{}, s, stop)
+					r.Valuations++
+					for b := range reach.Blocks {
+						if b == h || len(b.Succs) == 0 {
+							ok = false
+						}
+					}
+				}
+				if entered == 0 {
+					ok = false
 				}
 			}
 			r.Check("rpcGetLeavesByRange:every-leaf-fixed", ok, r.Where(fix[0]), "inside the loop over the reply's leaves no path reaches the next leaf or a return around FixLogLeaf")
 		}
 	}
-	// the loop in rpcGetLeavesByRange covers every leaf of the reply: it ranges over rsp.Leaves
+	// the loop in rpcGetLeavesByRange covers every leaf of the reply: the leaf handed to FixLogLeaf is
+	// Leaves[i] for a counter i that starts at 0, advances by 1 and enters the loop exactly while i < len(Leaves)
+	// (the shape a range loop has by construction and an index loop must have explicitly)
 	if fn := r.Fn("trillian/ctfe.rpcGetLeavesByRange"); fn != nil {
-		ok := false
-		for _, c := range CallsTo(fn, "len") {
-			if glob("iface(trillian.TrillianLogClient).GetLeavesByRange(*)#0.Leaves", r.D.D(CallArgs(c)[0])) {
-				ok = true
-			}
+		fix := CallsTo(fn, "iface(trillian/ctfe.leafChainBuilder).FixLogLeaf")
+		if len(fix) == 1 {
+			ok, why := c14CoversAll(r, fix[0], "iface(trillian.TrillianLogClient).GetLeavesByRange(*)#0.Leaves")
+			r.Check("rpcGetLeavesByRange:all-leaves", ok, r.Where(fix[0]), "FixLogLeaf is applied to Leaves[i] in a loop over i = 0, 1, … bounded by len(rsp.Leaves)"+why)
 		}
-		r.Check("rpcGetLeavesByRange:all-leaves", ok, r.FnPos(fn), "FixLogLeaf is applied in a loop bounded by len(rsp.Leaves)")
 	}
 
 	fix := r.Fn("(*trillian/ctfe.indirectIssuanceChainService).FixLogLeaf")
@@ -175,14 +191,33 @@ func runC14(r *Run) {
 				r.Check("FixLogLeaf:full-layout-unchanged:"+full, ok, r.Where(c), "an entry stored with its full chain is served unchanged (return nil, no store)")
 			}
 		}
-		// nothing matched ⇒ error: the last return is non-nil
-		last := 0
-		for _, ret := range Returns(fix) {
-			if errKind(ret.Results[0]) == "non" {
-				last++
+		// bytes after the stored chain ⇒ error, and the leaf is not rewritten
+		nTrail := 0
+		for _, c := range CallsTo(fix, "asn1.Unmarshal") {
+			errv, rest := CallResult(c, 1), CallResult(c, 0)
+			if errv == nil || rest == nil {
+				r.Fail("FixLogLeaf:stored-chain-trailing-data", r.Where(c), "result of asn1.Unmarshal ignored")
+				continue
 			}
+			nTrail++
+			s := Sigma{"nil?" + r.D.D(errv): "nil", "ord(0, len(" + r.D.D(rest) + "))": "<"}
+			reach := r.D.Walk(fix, s, c.Block(), nil)
+			r.Valuations++
+			ok := true
+			why := ""
+			for _, ret := range reachableReturns(fix, reach) {
+				if !nonNilUnder(ret.Results[0], reach) {
+					ok, why = false, "a return that may be nil is reachable at "+r.Where(ret)
+				}
+			}
+			for _, st := range stores {
+				if reach.Has(st) {
+					ok, why = false, "the leaf is rewritten"
+				}
+			}
+			r.Check("FixLogLeaf:stored-chain-trailing-data", ok, r.Where(c), "bytes after the stored issuance chain are an error and the leaf stays as it is "+why)
 		}
-		r.Check("FixLogLeaf:unknown-layout-rejected", last >= 3, r.FnPos(fix), fmt.Sprintf("%d constructed-error returns (trailing data ×2, unknown layout)", last))
+		r.Floor("FixLogLeaf asn1.Unmarshal of stored chains", nTrail, 2)
 		// under all four decodes failing, only the error return is reachable
 		s := Sigma{}
 		for _, c := range CallsTo(fix, "tls.Unmarshal") {
@@ -471,4 +506,122 @@ func c14ChainStore(r *Run) {
 			r.Check("issuanceChainHash", r.D.D(ret.Results[0]) == "sha256.Sum256(p0)[:]", r.Where(ret), "hash = "+r.D.D(ret.Results[0]))
 		}
 	}
+}
+
+// loopBlocksOf returns the blocks of the natural loop(s) with header h: h and every
+// block that reaches a back edge p→h (h dominates p) without passing through h.
+func loopBlocksOf(h *ssa.BasicBlock) map[*ssa.BasicBlock]bool {
+	seen := map[*ssa.BasicBlock]bool{h: true}
+	var work []*ssa.BasicBlock
+	for _, p := range h.Preds {
+		if h.Dominates(p) {
+			work = append(work, p)
+		}
+	}
+	for len(work) > 0 {
+		c := work[len(work)-1]
+		work = work[:len(work)-1]
+		if seen[c] {
+			continue
+		}
+		seen[c] = true
+		work = append(work, c.Preds...)
+	}
+	return seen
+}
+
+// c14CoversAll decides that the call's leaf argument is xs[i] (xs matching sliceGlob) inside a loop whose
+// counter i runs 0, 1, 2, … and whose header enters the loop exactly when i < len(xs).
+func c14CoversAll(r *Run, call ssa.CallInstruction, sliceGlob string) (bool, string) {
+	args := CallArgs(call)
+	ld, isLoad := args[len(args)-1].(*ssa.UnOp)
+	if !isLoad {
+		return false, ": the leaf is not an element of the reply's slice"
+	}
+	ia, isIdx := ld.X.(*ssa.IndexAddr)
+	if !isIdx || !glob(sliceGlob, r.D.D(ia.X)) {
+		return false, ": the leaf is not an element of the reply's slice"
+	}
+	h := loopHeaderOf(call.Block())
+	if h == nil {
+		return false, ": the call is not in a loop"
+	}
+	// the counter: an induction φ of the header, entered with 0 and advanced by 1 — or, for the lowering
+	// of a range loop, the pre-index φ (−1, +1) incremented before use
+	var ph *ssa.Phi
+	switch x := ia.Index.(type) {
+	case *ssa.Phi:
+		ph = x
+		if ph.Block() != h {
+			return false, ": the index is not the counter of the loop around the call"
+		}
+		for i, e := range ph.Edges {
+			if h.Dominates(h.Preds[i]) { // back edge
+				b, ok := e.(*ssa.BinOp)
+				if !ok || b.Op != token.ADD || b.X != ssa.Value(ph) || !isConstInt(b.Y, 1) {
+					return false, ": the counter does not advance by 1"
+				}
+			} else if !isConstInt(e, 0) {
+				return false, ": the counter does not start at 0"
+			}
+		}
+	case *ssa.BinOp:
+		pre, ok := x.X.(*ssa.Phi)
+		if !ok || x.Op != token.ADD || !isConstInt(x.Y, 1) || !isRangePre(pre) || pre.Block() != h {
+			return false, ": the index is not the counter of the loop around the call"
+		}
+	default:
+		return false, ": the index is not a loop counter"
+	}
+	ifi, ok := h.Instrs[len(h.Instrs)-1].(*ssa.If)
+	if !ok {
+		return false, ": the loop header has no test"
+	}
+	ci := r.D.Classify(ifi.Cond)
+	idx, ln := r.D.D(ia.Index), "len("+r.D.D(ia.X)+")"
+	tr := ci.True
+	switch {
+	case ci.Kind == "ord" && ci.A == idx && ci.B == ln:
+	case ci.Kind == "ord" && ci.A == ln && ci.B == idx:
+		tr = flipOrd(tr)
+	default:
+		return false, ": the loop header does not compare the counter with len of the slice (" + ci.Key + ")"
+	}
+	loop := loopBlocksOf(h)
+	in0, in1 := loop[h.Succs[0]], loop[h.Succs[1]]
+	switch {
+	case tr["<"] && !tr["="] && in0 && !in1:
+	case !tr["<"] && tr["="] && in1 && !in0:
+	default:
+		return false, ": the loop is not entered exactly while counter < len"
+	}
+	return true, ""
+}
+
+// nonNilUnder: v is non-nil whenever it is produced along the edges of the walk
+// (a φ is looked at edge by edge; constructed errors and allocations are non-nil).
+func nonNilUnder(v ssa.Value, reach *Reach) bool {
+	seen := map[ssa.Value]bool{}
+	var f func(v ssa.Value) bool
+	f = func(v ssa.Value) bool {
+		if seen[v] {
+			return true
+		}
+		seen[v] = true
+		if ph, ok := v.(*ssa.Phi); ok {
+			any := false
+			for i, e := range ph.Edges {
+				if reach != nil && !reach.Edges[[2]int{ph.Block().Preds[i].Index, ph.Block().Index}] {
+					continue
+				}
+				any = true
+				if !f(e) {
+					return false
+				}
+			}
+			return any
+		}
+		return errKind(v) == "non" || neverNil(v)
+	}
+	return f(v)
 }
